@@ -75,6 +75,7 @@ extern void hazard_pointer_thread_record_destroy(
 static inline void hazard_pointer_using(hazard_pointer_thread_record_t* hptr,
                                         hazard_node_t* node, size_t n) {
   assert(n < hptr->hazard_pointers_count);
+  FIBER_VERIF_POINT(FV_HP_PUBLISH_PRE, hptr, node);
   hptr->hazard_pointers[n] = node;
   store_load_barrier();  // make sure other processors can see we're using this
                          // pointer
@@ -85,6 +86,7 @@ static inline void hazard_pointer_done_using(
     hazard_pointer_thread_record_t* hptr, size_t n) {
   assert(n < hptr->hazard_pointers_count);
   hptr->hazard_pointers[n] = 0;
+  FIBER_VERIF_POINT(FV_HP_RELEASED, hptr, n);
 }
 
 extern void hazard_pointer_scan(hazard_pointer_thread_record_t* hptr);
